@@ -404,7 +404,9 @@ theorem doAction_step (act : Action) (a a' : Abs) (p : Player) (w : World) (B : 
     · rename_i hva
       simp only [Option.some.injEq] at hstep
       subst hstep
-      have hok := r6 hva
+      simp only [Bool.and_eq_true, Bool.not_eq_true'] at hva
+      have hok := r6 hva.1
+      have hce := r5 hva.2
       have hne : ¬ (p.voiceArray = none ∧ ¬ p.paula = []) := by
         rcases hok with h | h
         · cases hv : p.voiceArray <;> simp_all
@@ -412,13 +414,13 @@ theorem doAction_step (act : Action) (a a' : Abs) (p : Player) (w : World) (B : 
       have hw : (doAction .virtOff p w).2 = freeAll (p.paula ++ [p.voiceArray, p.virtChannel]) w := by
         simp [doAction, virtOff, hne, freeAll_append, freeAll]
       have hp : (doAction .virtOff p w).1 =
-          { p with voiceArray := none, paula := [], virtChannel := none, maxvoc := 0, virtChannels := 0 } := rfl
+          { p with voiceArray := none, paula := [], virtChannel := none, maxvoc := 0, virtChannels := 0, chanExtra := [] } := rfl
       rw [hw, hp]
-      have := free_fields p { p with voiceArray := none, paula := [], virtChannel := none, maxvoc := 0, virtChannels := 0 }
+      have := free_fields p { p with voiceArray := none, paula := [], virtChannel := none, maxvoc := 0, virtChannels := 0, chanExtra := [] }
         w B (p.paula ++ [p.voiceArray, p.virtChannel]) hO (by
         intro u; rw [toks_count, toks_count, ptrs_append, List.count_append]
         cases p.flowLoop <;> cases p.virtChannel <;> cases p.xcData <;> cases p.buffer <;> cases p.buf32 <;>
-          cases p.voiceArray <;> simp [List.count_cons] <;> omega)
+          cases p.voiceArray <;> simp [List.count_cons, hce] <;> omega)
       refine ⟨⟨?_, ?_, ?_, ?_, ?_, ?_, ?_⟩, this.1, this.2⟩ <;> simp_all
     · simp at hstep
   | chanExtras =>
@@ -532,34 +534,6 @@ theorem alloc_owns (p p' : Player) (w : World) (B : List Tok) (t : Tok) (hO : Ow
   simp only [List.count_cons, List.count_nil] at *
   omega
 
-theorem mixerOn_spec (w : World) :
-    let r := mixerOn {} w
-    r.2.2.bad = w.bad ∧ Owns r.2.1 r.2.2 w.live ∧
-    (r.1 < 0 → Rel Site.mixerOn.entry r.2.1) ∧
-    (¬ r.1 < 0 → r.2.1 = { buffer := some ⟨.mixBuffer, 0⟩, buf32 := some ⟨.mixBuf32, 0⟩ }) := by
-  unfold mixerOn
-  rcases alloc_cases w ⟨.mixBuffer, 0⟩ with ha | ha <;> rw [ha]
-  · refine ⟨rfl, ?_, ?_, ?_⟩
-    · intro u; simp [Player.toks]
-    · intro _; simp [Rel, Site.entry]
-    · intro h; simp at h
-  · simp only
-    generalize hw1 : ({ w with oracle := w.oracle.tail, nalloc := w.nalloc + 1, live := ⟨.mixBuffer, 0⟩ :: w.live } : World) = w1
-    have hl1 : w1.live = ⟨.mixBuffer, 0⟩ :: w.live := by subst hw1; rfl
-    have hb1 : w1.bad = w.bad := by subst hw1; rfl
-    rcases alloc_cases w1 ⟨.mixBuf32, 0⟩ with hb | hb <;> rw [hb]
-    · refine ⟨?_, ?_, ?_, ?_⟩
-      · simp [World.free, hl1, hb1]
-      · intro u; simp [World.free, hl1, Player.toks]
-      · intro _; simp [Rel, Site.entry]
-      · intro h; simp at h
-    · refine ⟨by simp [hb1], ?_, ?_, ?_⟩
-      · intro u; simp [hl1, Player.toks, List.count_cons]; omega
-      · intro h; simp at h
-      · intro _; rfl
-
-
-
 theorem toks_count' (p : Player) (u : Tok) :
     p.toks.count u = (ptrs [p.buffer]).count u + (ptrs [p.buf32]).count u + (ptrs [p.voiceArray]).count u
       + (ptrs p.paula).count u + (ptrs [p.virtChannel]).count u + (ptrs [p.flowLoop]).count u
@@ -567,6 +541,54 @@ theorem toks_count' (p : Player) (u : Tok) :
   rw [toks_count]
   cases p.buffer <;> cases p.buf32 <;> cases p.voiceArray <;> cases p.virtChannel <;> cases p.flowLoop <;> cases p.xcData <;>
     simp [List.count_cons] <;> omega
+
+/-- a player that owns nothing has NULL pointers everywhere (counts and table lengths may be stale) -/
+theorem toks_nil (p : Player) (h : p.toks = []) :
+    p.buffer = none ∧ p.buf32 = none ∧ p.voiceArray = none ∧ p.virtChannel = none ∧ p.flowLoop = none ∧
+    p.xcData = none ∧ ptrs p.paula = [] ∧ ptrs p.chanExtra = [] := by
+  unfold Player.toks at h
+  simp only [List.append_eq_nil_iff] at h
+  obtain ⟨⟨⟨h1, h2⟩, h3⟩, h4⟩ := h
+  cases hb : p.buffer <;> cases hb2 : p.buf32 <;> cases hv : p.voiceArray <;> cases hc : p.virtChannel <;>
+    cases hf : p.flowLoop <;> cases hx : p.xcData <;> simp_all
+
+theorem owns_nil (p : Player) (w : World) (h : p.toks = []) : Owns p w w.live := by
+  intro u; simp [h]
+
+theorem mixerOn_spec (p : Player) (w : World) (B : List Tok) (hO : Owns p w B)
+    (hb : p.buffer = none) (hb2 : p.buf32 = none) :
+    let r := mixerOn p w
+    r.2.2.bad = w.bad ∧ Owns r.2.1 r.2.2 B ∧
+    (r.1 < 0 → r.2.1 = p) ∧
+    (¬ r.1 < 0 → r.2.1 = { p with buffer := some ⟨.mixBuffer, 0⟩, buf32 := some ⟨.mixBuf32, 0⟩ }) := by
+  have hpe : ({ p with buffer := none, buf32 := none } : Player) = p := by
+    cases p; simp_all
+  have hpe1 : ({ p with buffer := none } : Player) = p := by
+    cases p; simp_all
+  unfold mixerOn
+  rcases alloc_cases w ⟨.mixBuffer, 0⟩ with ha | ha <;> rw [ha]
+  · refine ⟨rfl, ?_, ?_, ?_⟩
+    · simp only [hpe1]; exact hO
+    · intro _; exact hpe1
+    · intro h; simp at h
+  · simp only
+    generalize hw1 : ({ w with oracle := w.oracle.tail, nalloc := w.nalloc + 1, live := ⟨.mixBuffer, 0⟩ :: w.live } : World) = w1
+    have hl1 : w1.live = ⟨.mixBuffer, 0⟩ :: w.live := by subst hw1; rfl
+    have hb1 : w1.bad = w.bad := by subst hw1; rfl
+    rcases alloc_cases w1 ⟨.mixBuf32, 0⟩ with hc2 | hc2 <;> rw [hc2]
+    · refine ⟨?_, ?_, ?_, ?_⟩
+      · simp [World.free, hl1, hb1]
+      · simp only [hpe]; intro u; have := hO u; simp [World.free, hl1]; exact this
+      · intro _; exact hpe
+      · intro h; simp at h
+    · refine ⟨by simp [hb1], ?_, ?_, ?_⟩
+      · intro u; have := hO u
+        rw [toks_count'] at this ⊢
+        simp [hl1, List.count_cons, hb, hb2] at this ⊢; omega
+      · intro h; simp at h
+      · intro _; rfl
+
+
 
 theorem ptrs_ite_chan (b : Bool) (n : Nat) : ptrs (if b then List.replicate n none else []) = [] := by
   cases b <;> simp [ptrs_replicate_none]
@@ -657,97 +679,336 @@ theorem virtOn_spec (pp : StartParams) (p : Player) (w : World) (B : List Tok) (
 
 
 
+/-- xmp_start_player after a successful libxmp_mixer_on: `p` owns the two mixer buffers (and nothing
+else), `B` is the frame -/
+theorem startTail_spec (cfg : StartCfg) (hs : cfg.Sound = true) (pp : StartParams) (c : Ctx) (p : Player) (w : World)
+    (B : List Tok) (hO : Owns p w B) (hva : p.voiceArray = none) (hvc : p.virtChannel = none)
+    (hfl : p.flowLoop = none) (hxc : p.xcData = none) (hpa : ptrs p.paula = []) (hce : ptrs p.chanExtra = []) :
+    let r := startTail cfg pp c p w
+    r.2.2.bad = w.bad ∧
+    (r.1 < 0 → r.2.1.state = c.state ∧ r.2.1.player.toks = [] ∧ ∀ u, r.2.2.live.count u = B.count u) ∧
+    (¬ r.1 < 0 → r.1 = 0 ∧ r.2.1.state = .playing ∧ Owns r.2.1.player r.2.2 B ∧
+      r.2.1.player.voiceArray.isSome = true ∧ r.2.1.player.xcData.isSome = true) := by
+  simp only [StartCfg.Sound, allSites, List.all_cons, List.all_nil, Bool.and_true, Bool.and_eq_true] at hs
+  obtain ⟨_, s2, s3, s4, s5⟩ := hs
+  unfold startTail
+  simp only
+  obtain ⟨vb, vO, v1, v2, v3, v4, v5, vfail, vok⟩ := virtOn_spec pp p w B hO hva hvc hpa hce
+  generalize virtOn pp p w = r2 at vb vO v1 v2 v3 v4 v5 vfail vok
+  have v3' : r2.2.1.flowLoop = none := by rw [v3, hfl]
+  have v4' : r2.2.1.xcData = none := by rw [v4, hxc]
+  by_cases h2 : r2.1 < 0
+  · simp only [h2, if_true]
+    obtain ⟨f1, f2, f3⟩ := vfail h2
+    have hR : Rel Site.virtOn.entry r2.2.1 := by
+      simp [Rel, Site.entry, f1, f2, f3, v3', v4', v5]
+    obtain ⟨a, b, c', d, e⟩ := startFail_spec cfg .virtOn s2 errInternal (by decide) c
+      r2.2.1 r2.2.2 B hR vO
+    refine ⟨by rw [b, vb], fun _ => ⟨c', d, e⟩, fun h => absurd a h⟩
+  · simp only [h2, if_false]
+    have hva' := vok h2
+    rcases alloc_cases r2.2.2 ⟨.flowLoop, 0⟩ with ha | ha <;> rw [ha] <;> simp only
+    · -- f->loop fails
+      have hO3 : Owns { r2.2.1 with flowLoop := none } { r2.2.2 with oracle := r2.2.2.oracle.tail, nalloc := r2.2.2.nalloc + 1 } B := by
+        intro u; have := vO u; rw [toks_count'] at this ⊢; simpa [v3'] using this
+      have hR : Rel Site.flowLoop.entry { r2.2.1 with flowLoop := none } := by
+        simp [Rel, Site.entry, v4', v5, hva']
+      obtain ⟨a, b, c', d, e⟩ := startFail_spec cfg .flowLoop s3 errSystem (by decide) c
+        _ _ B hR hO3
+      refine ⟨by rw [b]; simp [vb], fun _ => ⟨c', d, e⟩, fun h => absurd a h⟩
+    · have hO3 : Owns { r2.2.1 with flowLoop := some ⟨.flowLoop, 0⟩ }
+          { r2.2.2 with oracle := r2.2.2.oracle.tail, nalloc := r2.2.2.nalloc + 1, live := ⟨.flowLoop, 0⟩ :: r2.2.2.live } B := by
+        intro u; have := vO u; rw [toks_count'] at this ⊢
+        simp [v3', List.count_cons] at this ⊢; omega
+      generalize hw3 : ({ r2.2.2 with oracle := r2.2.2.oracle.tail, nalloc := r2.2.2.nalloc + 1, live := ⟨.flowLoop, 0⟩ :: r2.2.2.live } : World) = w3 at hO3 ⊢
+      have hb3 : w3.bad = w.bad := by subst hw3; simp [vb]
+      have g1 : r2.2.1.xcData = none := v4'
+      have g2 : ptrs r2.2.1.chanExtra = [] := v5
+      have g3 : r2.2.1.voiceArray.isSome = true := hva'
+      rcases alloc_cases w3 ⟨.xcData, 0⟩ with hx | hx <;> rw [hx] <;> simp only
+      · -- xc_data fails
+        have hO4 : Owns { r2.2.1 with flowLoop := some ⟨.flowLoop, 0⟩, xcData := none }
+            { w3 with oracle := w3.oracle.tail, nalloc := w3.nalloc + 1 } B := by
+          intro u; have := hO3 u; rw [toks_count'] at this ⊢; simpa [g1] using this
+        have hR : Rel Site.xcData.entry { r2.2.1 with flowLoop := some ⟨.flowLoop, 0⟩, xcData := none } := by
+          simp [Rel, Site.entry, g2, g3]
+        obtain ⟨a, b, c', d, e⟩ := startFail_spec cfg .xcData s4 errSystem (by decide) c
+          _ _ B hR hO4
+        refine ⟨by rw [b]; simp [hb3], fun _ => ⟨c', d, e⟩, fun h => absurd a h⟩
+      · have hO4 : Owns { r2.2.1 with flowLoop := some ⟨.flowLoop, 0⟩, xcData := some ⟨.xcData, 0⟩ }
+            { w3 with oracle := w3.oracle.tail, nalloc := w3.nalloc + 1, live := ⟨.xcData, 0⟩ :: w3.live } B := by
+          intro u; have := hO3 u; rw [toks_count'] at this ⊢
+          simp [g1, List.count_cons] at this ⊢; omega
+        generalize hw4 : ({ w3 with oracle := w3.oracle.tail, nalloc := w3.nalloc + 1, live := ⟨.xcData, 0⟩ :: w3.live } : World) = w4 at hO4 ⊢
+        have hb4 : w4.bad = w.bad := by subst hw4; simp [hb3]
+        generalize hr : (if pp.extras = true then allocLoop .chanExtra pp.virtch 0 w4 else (List.replicate pp.virtch none, true, w4)) = r
+        have hrs : r.2.2.bad = w4.bad ∧ ∀ u, r.2.2.live.count u = w4.live.count u + (ptrs r.1).count u := by
+          subst hr
+          cases pp.extras
+          · simp [ptrs_replicate_none]
+          · simpa using allocLoop_spec .chanExtra pp.virtch 0 w4
+        obtain ⟨hrb, hrl⟩ := hrs
+        have hO5 : Owns { r2.2.1 with flowLoop := some ⟨.flowLoop, 0⟩, xcData := some ⟨.xcData, 0⟩, chanExtra := r.1 } r.2.2 B := by
+          intro u; have := hO4 u; have := hrl u; rw [toks_count'] at *
+          simp [g2] at *; omega
+        cases hok : r.2.1
+        · simp only [Bool.false_eq_true, if_false]
+          have hR : Rel Site.chanExtras.entry
+              { r2.2.1 with flowLoop := some ⟨.flowLoop, 0⟩, xcData := some ⟨.xcData, 0⟩, chanExtra := r.1 } := by
+            simp [Rel, Site.entry, g3]
+          obtain ⟨a, b, c', d, e⟩ := startFail_spec cfg .chanExtras s5 errSystem (by decide) c
+            _ _ B hR hO5
+          refine ⟨by rw [b, hrb, hb4], fun _ => ⟨c', d, e⟩, fun h => absurd a h⟩
+        · simp only [if_true]
+          refine ⟨by rw [hrb, hb4], fun h => by simp at h, fun _ => ⟨trivial, trivial, hO5, g3, rfl⟩⟩
+
+/-- **xmp_start_player from any LOADED context that owns no player block** - the fresh context after a
+load, or the residue of any number of failed starts (stale `maxvoc` / `virt_channels`, stale table
+lengths): same guarantees as from the fresh one -/
+theorem start_atomic_gen (cfg : StartCfg) (hs : cfg.Sound = true) (pp : StartParams) (c : Ctx) (w : World)
+    (hst : c.state = .loaded) (hp : c.player.toks = []) :
+    let r := startPlayer cfg pp true c w
+    r.2.2.bad = w.bad ∧
+    (r.1 < 0 → r.2.1.state = .loaded ∧ r.2.1.player.toks = [] ∧ ∀ u, r.2.2.live.count u = w.live.count u) ∧
+    (¬ r.1 < 0 → r.1 = 0 ∧ r.2.1.state = .playing ∧ Owns r.2.1.player r.2.2 w.live ∧
+      r.2.1.player.voiceArray.isSome = true ∧ r.2.1.player.xcData.isSome = true) := by
+  have hs' := hs
+  simp only [StartCfg.Sound, allSites, List.all_cons, List.all_nil, Bool.and_true, Bool.and_eq_true] at hs'
+  obtain ⟨s1, _⟩ := hs'
+  obtain ⟨n1, n2, n3, n4, n5, n6, n7, n8⟩ := toks_nil _ hp
+  unfold startPlayer
+  simp only [Bool.not_true, Bool.false_eq_true, if_false, hst, reduceCtorEq]
+  cases hsm : pp.smixOk
+  · simp only [Bool.not_false, if_true]
+    refine ⟨by first | rfl | trivial, fun _ => ⟨by first | exact hst | trivial, hp, fun _ => by first | rfl | trivial⟩,
+      fun h => absurd (by decide : errInvalid < 0) h⟩
+  simp only [Bool.not_true, Bool.false_eq_true, if_false]
+  have hend : endPlayer c w = (c, w) := by
+    simp [endPlayer, hst]
+  rw [hend]
+  simp only
+  obtain ⟨mb, mO, mfail, mok⟩ := mixerOn_spec c.player w w.live (owns_nil _ _ hp) n1 n2
+  generalize mixerOn c.player w = r1 at mb mO mfail mok
+  by_cases h1 : r1.1 < 0
+  · simp only [h1, if_true]
+    have hR : Rel Site.mixerOn.entry r1.2.1 := by
+      rw [mfail h1]
+      simp [Rel, Site.entry, n1, n2, n3, n4, n5, n6, n7, n8]
+    obtain ⟨a, b, c', d, e⟩ := startFail_spec cfg .mixerOn s1 errInternal (by decide) c
+      r1.2.1 r1.2.2 w.live hR mO
+    refine ⟨by rw [b, mb], fun _ => ⟨by rw [c', hst], d, e⟩, fun h => absurd a h⟩
+  · simp only [h1, if_false]
+    have hp1 := mok h1
+    obtain ⟨tb, tf, tok⟩ := startTail_spec cfg hs pp c r1.2.1 r1.2.2 w.live mO
+      (by rw [hp1]; exact n3) (by rw [hp1]; exact n4) (by rw [hp1]; exact n5) (by rw [hp1]; exact n6)
+      (by rw [hp1]; exact n7) (by rw [hp1]; exact n8)
+    refine ⟨by rw [tb, mb], fun h => ?_, tok⟩
+    obtain ⟨t1, t2, t3⟩ := tf h
+    exact ⟨by rw [t1, hst], t2, t3⟩
+
 theorem start_atomic (cfg : StartCfg) (hs : cfg.Sound = true) (pp : StartParams) (w : World) :
     let r := startPlayer cfg pp true { state := .loaded, player := {} } w
     r.2.2.bad = w.bad ∧
     (r.1 < 0 → r.2.1.state = .loaded ∧ r.2.1.player.toks = [] ∧ ∀ u, r.2.2.live.count u = w.live.count u) ∧
     (¬ r.1 < 0 → r.1 = 0 ∧ r.2.1.state = .playing ∧ Owns r.2.1.player r.2.2 w.live) := by
-  simp only [StartCfg.Sound, allSites, List.all_cons, List.all_nil, Bool.and_true, Bool.and_eq_true] at hs
-  obtain ⟨s1, s2, s3, s4, s5⟩ := hs
+  obtain ⟨a, b, c⟩ := start_atomic_gen cfg hs pp { state := .loaded, player := {} } w rfl rfl
+  exact ⟨a, b, fun h => ⟨(c h).1, (c h).2.1, (c h).2.2.1⟩⟩
+
+/-! ### reuse after a failed start, and restart while playing -/
+
+theorem freeAll_null (l : List (Option Tok)) (w : World) (h : ptrs l = []) : freeAll l w = w := by
+  induction l generalizing w with
+  | nil => rfl
+  | cons a l ih =>
+    cases a with
+    | none => simpa [freeAll, World.free] using ih w (by simpa using h)
+    | some t => simp at h
+
+/-- a release action on a player that owns nothing, when the abstract step allows it, does not touch
+the world at all -/
+theorem doAction_null (act : Action) (a a' : Abs) (p : Player) (w : World)
+    (hstep : absStep act a = some a') (hR : Rel a p) (hp : p.toks = []) :
+    (doAction act p w).2 = w ∧ (doAction act p w).1.toks = [] ∧ Rel a' (doAction act p w).1 := by
+  obtain ⟨n1, n2, n3, n4, n5, n6, n7, n8⟩ := toks_nil _ hp
+  have hrel := (doAction_step act a a' p w w.live hstep hR (owns_nil p w hp)).1
+  refine ⟨?_, ?_, hrel⟩
+  · obtain ⟨r1, r2, r3, r4, r5, r6, r7⟩ := hR
+    cases act with
+    | unknown => simp [absStep] at hstep
+    | mixerOff => simp [doAction, mixerOff, n1, n2, World.free]
+    | flowLoop => simp [doAction, n5, World.free]
+    | xcData => simp [doAction, n6, World.free]
+    | virtOff =>
+      simp only [absStep] at hstep
+      split at hstep
+      · rename_i hva
+        simp only [Bool.and_eq_true, Bool.not_eq_true'] at hva
+        have hpa : p.paula = [] := by
+          rcases r6 hva.1 with h | h
+          · simp [n3] at h
+          · exact h
+        simp [doAction, virtOff, n3, n4, hpa, World.free, freeAll]
+      · simp at hstep
+    | chanExtras =>
+      simp only [absStep] at hstep
+      split at hstep
+      · rename_i hxc
+        have hce : p.chanExtra = [] := by
+          rcases r7 hxc with h | h
+          · simp [n6] at h
+          · exact h
+        simp [doAction, hce, freeAll]
+      · simp at hstep
+  · cases act with
+    | unknown => simp [absStep] at hstep
+    | mixerOff => simp [doAction, mixerOff, Player.toks, n3, n4, n5, n6, n7, n8]
+    | flowLoop => simp [doAction, Player.toks, n1, n2, n3, n4, n6, n7, n8]
+    | xcData => simp [doAction, Player.toks, n1, n2, n3, n4, n5, n7]
+    | virtOff => simp [doAction, virtOff, Player.toks, n1, n2, n5, n6]
+    | chanExtras => simp [doAction, Player.toks, n1, n2, n3, n4, n5, n6, n7, ptrs_map_none]
+
+theorem doActions_null (l : List Action) : ∀ (a f : Abs) (p : Player) (w : World),
+    absRun l a = some f → Rel a p → p.toks = [] →
+    (doActions l p w).2 = w ∧ (doActions l p w).1.toks = [] := by
+  induction l with
+  | nil => intro a f p w _ _ hp; exact ⟨rfl, hp⟩
+  | cons act l ih =>
+    intro a f p w h hR hp
+    simp only [absRun] at h
+    cases hs : absStep act a with
+    | none => simp [hs] at h
+    | some a' =>
+      simp only [hs] at h
+      obtain ⟨h1, h2, h3⟩ := doAction_null act a a' p w hs hR hp
+      obtain ⟨g1, g2⟩ := ih a' f _ (doAction act p w).2 h h3 h2
+      simp only [doActions]
+      exact ⟨by rw [g1, h1], g2⟩
+
+/-- failure exit on a player that owns nothing: the world is untouched -/
+theorem startFail_null (cfg : StartCfg) (site : Site) (hs : cfg.soundAt site = true) (code : Int)
+    (c : Ctx) (p : Player) (w : World) (hR : Rel site.entry p) (hp : p.toks = []) :
+    let r := startFail cfg site code c p w
+    r.1 = code ∧ r.2.2 = w ∧ r.2.1.state = c.state ∧ r.2.1.player.toks = [] := by
+  simp only [StartCfg.soundAt, Bool.and_eq_true] at hs
+  obtain ⟨hneg, hrun⟩ := hs
+  cases hf : absRun (cfg.cleanup site) site.entry with
+  | none => simp [hf] at hrun
+  | some f =>
+    obtain ⟨g1, g2⟩ := doActions_null _ _ f p w hf hR hp
+    simp only [startFail, hneg, if_true]
+    exact ⟨trivial, g1, trivial, g2⟩
+
+theorem startTail_ctx (cfg : StartCfg) (pp : StartParams) (st : State) (p0 q0 p : Player) (w : World) :
+    startTail cfg pp { state := st, player := p0 } p w = startTail cfg pp { state := st, player := q0 } p w := rfl
+
+theorem startTail_virtInit (cfg : StartCfg) (pp : StartParams) (c : Ctx) (p q : Player) (w : World)
+    (h : virtInit pp p = virtInit pp q) : startTail cfg pp c p w = startTail cfg pp c q w := by
+  unfold startTail virtOn
+  rw [h]
+
+/-- **Stale residue is invisible.**  xmp_start_player on a LOADED context that owns no player block
+(the residue of failed starts: stale `maxvoc`/`virt_channels`, stale table lengths) computes exactly
+what it computes on the fresh LOADED context: same return code, same world (ledger, allocator calls,
+close log, descriptors - literally equal), same state; the same player when it succeeds and a player
+that owns nothing when it fails. -/
+theorem start_reuse (cfg : StartCfg) (hs : cfg.Sound = true) (pp : StartParams) (c : Ctx) (w : World)
+    (hst : c.state = .loaded) (hp : c.player.toks = []) :
+    let a := startPlayer cfg pp true c w
+    let b := startPlayer cfg pp true { state := .loaded, player := {} } w
+    a.1 = b.1 ∧ a.2.2 = b.2.2 ∧ a.2.1.state = b.2.1.state ∧ a.2.1.player.toks = b.2.1.player.toks ∧
+      (¬ a.1 < 0 → a.2.1 = b.2.1) := by
+  have hs' := hs
+  simp only [StartCfg.Sound, allSites, List.all_cons, List.all_nil, Bool.and_true, Bool.and_eq_true] at hs'
+  obtain ⟨s1, _⟩ := hs'
+  obtain ⟨n1, n2, n3, n4, n5, n6, n7, n8⟩ := toks_nil _ hp
+  obtain ⟨st, pl⟩ := c
+  simp only at hst hp n1 n2 n3 n4 n5 n6 n7 n8
+  subst hst
   unfold startPlayer
   simp only [Bool.not_true, Bool.false_eq_true, if_false, reduceCtorEq]
-  have hend : endPlayer { state := .loaded, player := {} } w = ({ state := .loaded, player := {} }, w) := by
-    simp [endPlayer]
-  rw [hend]
+  cases hsm : pp.smixOk
+  · simp only [Bool.not_false, if_true]
+    exact ⟨trivial, trivial, trivial, by rw [hp]; rfl, fun h => absurd (by decide : errInvalid < 0) h⟩
+  simp only [Bool.not_true, Bool.false_eq_true, if_false]
+  have e1 : endPlayer { state := .loaded, player := pl } w = ({ state := .loaded, player := pl }, w) := by simp [endPlayer]
+  have e2 : endPlayer { state := .loaded, player := {} } w = ({ state := .loaded, player := {} }, w) := by simp [endPlayer]
+  rw [e1, e2]
   simp only
-  obtain ⟨mb, mO, mfail, mok⟩ := mixerOn_spec w
-  generalize mixerOn {} w = r1 at mb mO mfail mok
-  by_cases h1 : r1.1 < 0
-  · simp only [h1, if_true]
-    obtain ⟨a, b, c, d, e⟩ := startFail_spec cfg .mixerOn s1 errInternal (by decide) { state := .loaded, player := {} }
-      r1.2.1 r1.2.2 w.live (mfail h1) mO
-    refine ⟨by rw [b, mb], fun _ => ⟨c, d, e⟩, fun h => absurd a h⟩
-  · simp only [h1, if_false]
-    have hp1 := mok h1
-    obtain ⟨vb, vO, v1, v2, v3, v4, v5, vfail, vok⟩ := virtOn_spec pp r1.2.1 r1.2.2 w.live mO
-      (by rw [hp1]) (by rw [hp1]) (by rw [hp1]; rfl) (by rw [hp1]; rfl)
-    generalize virtOn pp r1.2.1 r1.2.2 = r2 at vb vO v1 v2 v3 v4 v5 vfail vok
-    have v3' : r2.2.1.flowLoop = none := by rw [v3, hp1]
-    have v4' : r2.2.1.xcData = none := by rw [v4, hp1]
-    by_cases h2 : r2.1 < 0
-    · simp only [h2, if_true]
-      obtain ⟨f1, f2, f3⟩ := vfail h2
-      have hR : Rel Site.virtOn.entry r2.2.1 := by
-        simp [Rel, Site.entry, f1, f2, f3, v3', v4', v5]
-      obtain ⟨a, b, c, d, e⟩ := startFail_spec cfg .virtOn s2 errInternal (by decide) { state := .loaded, player := {} }
-        r2.2.1 r2.2.2 w.live hR vO
-      refine ⟨by rw [b, vb, mb], fun _ => ⟨c, d, e⟩, fun h => absurd a h⟩
-    · simp only [h2, if_false]
-      have hva := vok h2
-      rcases alloc_cases r2.2.2 ⟨.flowLoop, 0⟩ with ha | ha <;> rw [ha] <;> simp only
-      · -- f->loop fails
-        have hO3 : Owns { r2.2.1 with flowLoop := none } { r2.2.2 with oracle := r2.2.2.oracle.tail, nalloc := r2.2.2.nalloc + 1 } w.live := by
-          intro u; have := vO u; rw [toks_count'] at this ⊢; simpa [v3'] using this
-        have hR : Rel Site.flowLoop.entry { r2.2.1 with flowLoop := none } := by
-          simp [Rel, Site.entry, v4', v5, hva]
-        obtain ⟨a, b, c, d, e⟩ := startFail_spec cfg .flowLoop s3 errSystem (by decide) { state := .loaded, player := {} }
-          _ _ w.live hR hO3
-        refine ⟨by rw [b]; simp [vb, mb], fun _ => ⟨c, d, e⟩, fun h => absurd a h⟩
-      · have hO3 : Owns { r2.2.1 with flowLoop := some ⟨.flowLoop, 0⟩ }
-            { r2.2.2 with oracle := r2.2.2.oracle.tail, nalloc := r2.2.2.nalloc + 1, live := ⟨.flowLoop, 0⟩ :: r2.2.2.live } w.live := by
-          intro u; have := vO u; rw [toks_count'] at this ⊢
-          simp [v3', List.count_cons] at this ⊢; omega
-        generalize hw3 : ({ r2.2.2 with oracle := r2.2.2.oracle.tail, nalloc := r2.2.2.nalloc + 1, live := ⟨.flowLoop, 0⟩ :: r2.2.2.live } : World) = w3 at hO3 ⊢
-        have hb3 : w3.bad = w.bad := by subst hw3; simp [vb, mb]
-        have g1 : r2.2.1.xcData = none := v4'
-        have g2 : ptrs r2.2.1.chanExtra = [] := v5
-        have g3 : r2.2.1.voiceArray.isSome = true := hva
-        rcases alloc_cases w3 ⟨.xcData, 0⟩ with hx | hx <;> rw [hx] <;> simp only
-        · -- xc_data fails
-          have hO4 : Owns { r2.2.1 with flowLoop := some ⟨.flowLoop, 0⟩, xcData := none }
-              { w3 with oracle := w3.oracle.tail, nalloc := w3.nalloc + 1 } w.live := by
-            intro u; have := hO3 u; rw [toks_count'] at this ⊢; simpa [g1] using this
-          have hR : Rel Site.xcData.entry { r2.2.1 with flowLoop := some ⟨.flowLoop, 0⟩, xcData := none } := by
-            simp [Rel, Site.entry, g2, g3]
-          obtain ⟨a, b, c, d, e⟩ := startFail_spec cfg .xcData s4 errSystem (by decide) { state := .loaded, player := {} }
-            _ _ w.live hR hO4
-          refine ⟨by rw [b]; simp [hb3], fun _ => ⟨c, d, e⟩, fun h => absurd a h⟩
-        · have hO4 : Owns { r2.2.1 with flowLoop := some ⟨.flowLoop, 0⟩, xcData := some ⟨.xcData, 0⟩ }
-              { w3 with oracle := w3.oracle.tail, nalloc := w3.nalloc + 1, live := ⟨.xcData, 0⟩ :: w3.live } w.live := by
-            intro u; have := hO3 u; rw [toks_count'] at this ⊢
-            simp [g1, List.count_cons] at this ⊢; omega
-          generalize hw4 : ({ w3 with oracle := w3.oracle.tail, nalloc := w3.nalloc + 1, live := ⟨.xcData, 0⟩ :: w3.live } : World) = w4 at hO4 ⊢
-          have hb4 : w4.bad = w.bad := by subst hw4; simp [hb3]
-          generalize hr : (if pp.extras = true then allocLoop .chanExtra pp.virtch 0 w4 else (List.replicate pp.virtch none, true, w4)) = r
-          have hrs : r.2.2.bad = w4.bad ∧ ∀ u, r.2.2.live.count u = w4.live.count u + (ptrs r.1).count u := by
-            subst hr
-            cases pp.extras
-            · simp [ptrs_replicate_none]
-            · simpa using allocLoop_spec .chanExtra pp.virtch 0 w4
-          obtain ⟨hrb, hrl⟩ := hrs
-          have hO5 : Owns { r2.2.1 with flowLoop := some ⟨.flowLoop, 0⟩, xcData := some ⟨.xcData, 0⟩, chanExtra := r.1 } r.2.2 w.live := by
-            intro u; have := hO4 u; have := hrl u; rw [toks_count'] at *
-            simp [g2] at *; omega
-          cases hok : r.2.1
-          · simp only [Bool.false_eq_true, if_false]
-            have hR : Rel Site.chanExtras.entry
-                { r2.2.1 with flowLoop := some ⟨.flowLoop, 0⟩, xcData := some ⟨.xcData, 0⟩, chanExtra := r.1 } := by
-              simp [Rel, Site.entry, g3]
-            obtain ⟨a, b, c, d, e⟩ := startFail_spec cfg .chanExtras s5 errSystem (by decide) { state := .loaded, player := {} }
-              _ _ w.live hR hO5
-            refine ⟨by rw [b, hrb, hb4], fun _ => ⟨c, d, e⟩, fun h => absurd a h⟩
-          · simp only [if_true]
-            refine ⟨by rw [hrb, hb4], fun h => by simp at h, fun _ => ⟨trivial, trivial, hO5⟩⟩
+  have hRp : ∀ q : Player, q.toks = [] → Rel Site.mixerOn.entry q := by
+    intro q hq
+    obtain ⟨m1, m2, m3, m4, m5, m6, m7, m8⟩ := toks_nil _ hq
+    simp [Rel, Site.entry, m1, m2, m3, m4, m5, m6, m7, m8]
+  unfold mixerOn
+  rcases alloc_cases w ⟨.mixBuffer, 0⟩ with ha | ha <;> rw [ha] <;> simp only
+  · -- first buffer fails
+    have hq1 : ({ pl with buffer := none } : Player).toks = [] := by
+      simp [Player.toks, n2, n3, n4, n5, n6, n7, n8]
+    obtain ⟨a1, a2, a3, a4⟩ := startFail_null cfg .mixerOn s1 errInternal { state := .loaded, player := pl } _
+      { w with oracle := w.oracle.tail, nalloc := w.nalloc + 1 } (hRp _ hq1) hq1
+    obtain ⟨b1, b2, b3, b4⟩ := startFail_null cfg .mixerOn s1 errInternal { state := .loaded, player := {} }
+      ({ ({} : Player) with buffer := none }) { w with oracle := w.oracle.tail, nalloc := w.nalloc + 1 } (hRp _ rfl) rfl
+    simp only [show ((-1 : Int) < 0) from by decide, if_true]
+    refine ⟨by rw [a1, b1], by rw [a2, b2], by rw [a3, b3], by rw [a4, b4], fun h => ?_⟩
+    rw [a1] at h
+    exact absurd (by decide : errInternal < 0) h
+  · generalize hw1 : ({ w with oracle := w.oracle.tail, nalloc := w.nalloc + 1, live := ⟨.mixBuffer, 0⟩ :: w.live } : World) = w1
+    rcases alloc_cases w1 ⟨.mixBuf32, 0⟩ with hb | hb <;> rw [hb] <;> simp only
+    · have hq1 : ({ pl with buffer := none, buf32 := none } : Player).toks = [] := by
+        simp [Player.toks, n3, n4, n5, n6, n7, n8]
+      obtain ⟨a1, a2, a3, a4⟩ := startFail_null cfg .mixerOn s1 errInternal { state := .loaded, player := pl } _
+        (({ w1 with oracle := w1.oracle.tail, nalloc := w1.nalloc + 1 } : World).free (some ⟨.mixBuffer, 0⟩)) (hRp _ hq1) hq1
+      obtain ⟨b1, b2, b3, b4⟩ := startFail_null cfg .mixerOn s1 errInternal { state := .loaded, player := {} }
+        ({ ({} : Player) with buffer := none, buf32 := none })
+        (({ w1 with oracle := w1.oracle.tail, nalloc := w1.nalloc + 1 } : World).free (some ⟨.mixBuffer, 0⟩)) (hRp _ rfl) rfl
+      simp only [show ((-1 : Int) < 0) from by decide, if_true]
+      refine ⟨by rw [a1, b1], by rw [a2, b2], by rw [a3, b3], by rw [a4, b4], fun h => ?_⟩
+      rw [a1] at h
+      exact absurd (by decide : errInternal < 0) h
+    · simp only [show ¬ ((0 : Int) < 0) from by decide, if_false]
+      have hv : ∀ pp : StartParams, virtInit pp { pl with buffer := some ⟨.mixBuffer, 0⟩, buf32 := some ⟨.mixBuf32, 0⟩ }
+          = virtInit pp { ({} : Player) with buffer := some ⟨.mixBuffer, 0⟩, buf32 := some ⟨.mixBuf32, 0⟩ } := by
+        intro pp
+        simp [virtInit, n3, n4, n5, n6]
+      rw [startTail_virtInit cfg pp _ _ _ _ (hv pp), startTail_ctx cfg pp .loaded pl {}]
+      exact ⟨rfl, rfl, rfl, rfl, fun _ => rfl⟩
+
+/-- xmp_start_player while PLAYING = xmp_end_player, then xmp_start_player on the fresh LOADED context -/
+theorem startPlayer_playing (cfg : StartCfg) (pp : StartParams) (c : Ctx) (w : World) (hp : c.state = .playing)
+    (hv : c.player.voiceArray.isSome ∨ c.player.paula = []) (hsm : pp.smixOk = true) :
+    startPlayer cfg pp true c w
+      = startPlayer cfg pp true { state := .loaded, player := {} } (freeAll (playerOrder c.player) w) := by
+  unfold startPlayer
+  simp only [Bool.not_true, Bool.false_eq_true, if_false, hp, hsm, reduceCtorEq]
+  rw [endPlayer_eq c w hp hv]
+  have e2 : ∀ w', endPlayer { state := .loaded, player := {} } w' = ({ state := .loaded, player := {} }, w') := by
+    intro w'; simp [endPlayer]
+  rw [e2]
+
+/-- **xmp_start_player on a PLAYING context is atomic.**  The implicit xmp_end_player releases the old
+player; a failing allocation afterwards leaves state LOADED (the valid earlier state), no player block
+and a ledger that is the old one minus exactly the old player's blocks; success leaves state PLAYING and
+a ledger where the old player's blocks are replaced by the new ones. -/
+theorem restart_atomic (cfg : StartCfg) (hs : cfg.Sound = true) (pp : StartParams) (c : Ctx) (w : World)
+    (hp : c.state = .playing) (hv : c.player.voiceArray.isSome ∨ c.player.paula = [])
+    (hsm : pp.smixOk = true) (B : List Tok) (hO : Owns c.player w B) :
+    let r := startPlayer cfg pp true c w
+    r.2.2.bad = w.bad ∧
+    (r.1 < 0 → r.2.1.state = .loaded ∧ r.2.1.player.toks = [] ∧ ∀ u, r.2.2.live.count u = B.count u) ∧
+    (¬ r.1 < 0 → r.1 = 0 ∧ r.2.1.state = .playing ∧ Owns r.2.1.player r.2.2 B ∧
+      r.2.1.player.voiceArray.isSome = true ∧ r.2.1.player.xcData.isSome = true) := by
+  rw [startPlayer_playing cfg pp c w hp hv hsm]
+  have hsub : Sub (ptrs (playerOrder c.player)) w.live := by
+    intro u; rw [count_playerOrder]; have := hO u; omega
+  obtain ⟨fa, _, _, _, fe⟩ := freeAll_spec (playerOrder c.player) w hsub
+  have hB : ∀ u, (freeAll (playerOrder c.player) w).live.count u = B.count u := by
+    intro u; have := fe u; rw [count_playerOrder] at this; have := hO u; omega
+  obtain ⟨a, b, c'⟩ := start_atomic_gen cfg hs pp { state := .loaded, player := {} } (freeAll (playerOrder c.player) w) rfl rfl
+  refine ⟨by rw [a, fa], fun h => ?_, fun h => ?_⟩
+  · obtain ⟨b1, b2, b3⟩ := b h
+    exact ⟨b1, b2, fun u => by rw [b3 u, hB u]⟩
+  · obtain ⟨c1, c2, c3, c4, c5⟩ := c' h
+    refine ⟨c1, c2, ?_, c4, c5⟩
+    intro u; rw [c3 u, hB u]
 
 
 
